@@ -140,7 +140,8 @@ func normalise(calls []string, tdir string) string {
 	var toks []string
 	add := func(t string) {
 		// repeated writes to one file and repeated syncs of ancestors count once
-		if len(toks) > 0 && toks[len(toks)-1] == t && (t == "writeUpd" || t == "syncAnc") {
+		// (so do immediately repeated syncs: they are idempotent)
+		if len(toks) > 0 && toks[len(toks)-1] == t && (t == "writeUpd" || t == "syncAnc" || t == "syncDir" || t == "syncUpd") {
 			return
 		}
 		toks = append(toks, t)
